@@ -31,6 +31,8 @@ CHECKS = {
    text="Simulated programs with Transform/BadTransform actions; witnesses and moments are mapped through the exact affine map of the frame word; same-object return, exactness for move/scale on rationals, words reducing to the identity give == shapes.", ref="6/C09"),
  "C10": dict(tech="TLC heap model with cache/segmentation state + replay of simulated histories with live-vs-deep-copy query batteries and fresh-process reruns",
    text="After every action of TLC-simulated histories each involved object answers a query battery identically live, on a deep copy and live again; behaviours are re-run in fresh interpreters with other PYTHONHASHSEED values and cold/pre-warmed memo tables and observation logs must coincide.", ref="6/C10"),
+ "C11": dict(tech="TLC model checking of the PlusCal model of non-atomic calls (Calls.tla) + sys.monitoring fault injection at internal call boundaries + TLC validation of recorded mutation-event traces (TraceCalls.tla)",
+   text="TLC checks Intact at every crash point of the repaired design and refutes the pinned in-place-inversion design; in the implementation an exception / KeyboardInterrupt is raised at sampled internal call boundaries of operators, containment, ==, integrals, copies and queries, after which operands are compared with the specification record and query battery and the call is repeated; recorded in-place mutations of operands are validated by TLC against Calls; invalid arguments of move/scale/rotate via BadTransform actions.", ref="3.3, 5.3, 6/C11"),
  "C19": dict(tech="TLC heap model (MakeRegion) + direct constructors in permuted orders against operator-built objects and the specification record",
    text="For every region with >= 2 boundary curves the direct ConnectedShape/DisjointShape constructions in permuted orders (with Empty entries) are compared with the specification record, with the operator-built object (== both ways), with complements; collapse rules (single member copy, empty list).", ref="6/C19"),
 }
